@@ -35,11 +35,19 @@ fn case_line(p0: &Project, passes: &[String], with_full: bool, seeds: &[u64], fu
                     changed_any = true;
                     out.count(&format!("changed:{}", pass));
                 }
-                steps.push(json!({
+                let mut step = json!({
                     "pass": pass,
                     "out": if same { Value::Null } else { program_to_json(&next.program.term) },
                     "logs": logs,
-                }));
+                });
+                if pass == "prop" {
+                    // the tables of the real fixpoint (real transfer functions and engine)
+                    let c = cur.clone();
+                    if let Ok(t) = catch(std::panic::AssertUnwindSafe(move || real_propagation_tables(&c))) {
+                        step["tables"] = t;
+                    }
+                }
+                steps.push(step);
                 cur = next;
             }
             Err(p) => {
